@@ -600,7 +600,7 @@ func ruleDirectiveMapsThroughAccessors(c *Ctx, rule string) {
 			if lk, ok := in.(*ssa.Lookup); ok && isDir(lk.X.Type()) {
 				bad = append(bad, c.P.ShortName(fn)+"@"+c.P.InstrPos(in))
 			}
-			if rg, ok := in.(*ssa.Range); ok && isDir(rg.X.Type()) {
+			if rg, ok := in.(*ssa.Range); ok && isDir(rg.X.Type()) && !rangeOnlyCopiesArguments(rg) {
 				bad = append(bad, c.P.ShortName(fn)+"@"+c.P.InstrPos(in))
 			}
 		})
@@ -1133,4 +1133,42 @@ func ruleAPIListKeysUTF8(c *Ctx, rule string) {
 	default:
 		c.Pass(rule, "api-list-keys-utf8", desc, fmt.Sprintf("%d JSON document(s) with keys", n))
 	}
+}
+
+// rangeOnlyCopiesArguments: the arguments a range over a directive map yields are only stored into another map as they
+// are (a filtered copy of the map); nothing looks at them.
+func rangeOnlyCopiesArguments(rg *ssa.Range) bool {
+	if rg.Referrers() == nil {
+		return false
+	}
+	for _, r := range *rg.Referrers() {
+		nx, ok := r.(*ssa.Next)
+		if !ok {
+			if _, isDbg := r.(*ssa.DebugRef); isDbg {
+				continue
+			}
+			return false
+		}
+		for _, r2 := range *nx.Referrers() {
+			ex, ok := r2.(*ssa.Extract)
+			if !ok {
+				return false
+			}
+			if ex.Index != 2 {
+				continue
+			}
+			for _, u := range *ex.Referrers() {
+				switch x := u.(type) {
+				case *ssa.MapUpdate:
+					if x.Value != ex {
+						return false
+					}
+				case *ssa.DebugRef:
+				default:
+					return false
+				}
+			}
+		}
+	}
+	return true
 }
